@@ -15,6 +15,11 @@ structure Ep where
   first : Option Int := none
   last : Option Int := none
   lastBits : Nat := 0
+  /-- start of the current blackout window by the property's own history reading: the first non-empty
+      report since the start or since the last weight query that found the data expired -/
+  since : Option Int := none
+  /-- a report outside the monitor's domain (negative / non-finite) was seen: ledger unreliable -/
+  tainted : Bool := false
 
 structure St where
   sched : Option Sched := none
@@ -214,12 +219,13 @@ def step : Step St := fun s fs impl =>
           match implBits with
           | none => ("VIOL unparsable answer " ++ impl, ep)
           | some ib =>
-            if !dom then ("-", ep)
+            if !dom then ("-", { ep with tainted := true })
             else if repQ.empty then
               (if ib = bitsOfF ep.f.weightVal then "ok" else "VIOL an empty load report changed the weight", ep)
             else
               let want : Rat := repQ.rps / (repQ.utilization + repQ.eps / repQ.rps * ratOfBits s.penalty)
-              let ep1 := { ep with first := ep.first.orElse (fun _ => some s.now), last := some s.now, lastBits := ib }
+              let ep1 := { ep with first := ep.first.orElse (fun _ => some s.now), last := some s.now, lastBits := ib,
+                                   since := ep.since.orElse (fun _ => some s.now) }
               if !bitsFiniteNonneg ib then ("-", ep1)
               else if decide (want < 1 / (2 : Rat) ^ 900) || decide (want > (2 : Rat) ^ 900) then ("-", ep1)
               else if relClose (ratOfBits ib) want then ("ok", ep1)
@@ -234,25 +240,41 @@ def step : Step St := fun s fs impl =>
         let ep := s.eps[i]
         let (f', w) := weight s.now s.exp s.blackout ep.f
         let out := s!"{bitsOfF w} {showT f'.nonEmptySince}"
+        let expired := match ep.last with
+          | some tl => decide (s.now - tl ≥ s.exp)
+          | none => false
         let verdict :=
           match ((impl.splitOn " ").headD "").toNat? with
           | none => "VIOL unparsable answer " ++ impl
           | some ib =>
+            if ep.tainted then "-" else
             let isZero := ib = 0 || ib = 9223372036854775808
             match ep.first, ep.last with
-            | some tf, some tl =>
-              if s.now - tl ≥ s.exp then (if isZero then "ok" else "VIOL non-zero weight after the expiration period")
-              else if s.blackout ≠ 0 && s.now - tf < s.blackout then (if isZero then "ok" else "VIOL non-zero weight during the blackout period")
-              else if isZero || ib = ep.lastBits then "ok" else "VIOL weight is not the one of the latest load report"
+            | some _, some _ =>
+              if expired then (if isZero then "ok" else "VIOL non-zero weight after the expiration period")
+              else
+                let inBlackout := s.blackout ≠ 0 && (match ep.since with
+                  | none => true
+                  | some t => decide (s.now - t < s.blackout))
+                if inBlackout then (if isZero then "ok" else "VIOL non-zero weight during the blackout period")
+                else if ib = ep.lastBits then "ok"
+                else if isZero then "VIOL zero weight although the latest load report is within the expiration period and the blackout period has elapsed"
+                else "VIOL weight is not the one of the latest load report"
             | _, _ => if isZero then "ok" else "VIOL non-zero weight before the first load report"
-        ({ s with eps := s.eps.set i { ep with f := f' } }, out, verdict)
+        let since' := if expired then none else ep.since
+        ({ s with eps := s.eps.set i { ep with f := f', since := since' } }, out, verdict)
       else (s, "bad-op", "-")
     | none => (s, "bad-op", "-")
   | ["sched", v0S] =>
     match v0S.toNat? with
     | some v0 =>
       let rs := s.eps.map fun ep => weight s.now s.exp s.blackout ep.f
-      let eps' := (s.eps.zip rs).map fun (ep, r) => { ep with f := r.1 }
+      -- endpointWeights() queries every endpoint: a query that finds the data expired restarts the blackout
+      let eps' := (s.eps.zip rs).map fun (ep, r) =>
+        let expired := match ep.last with
+          | some tl => decide (s.now - tl ≥ s.exp)
+          | none => false
+        { ep with f := r.1, since := if expired then none else ep.since }
       let ws := (rs.map (·.2)).toList
       let sc := newScheduler ws
       ({ s with eps := eps', sched := sc, v := v0 }, showSched sc, monScale (ws.map bitsOfF) impl)
